@@ -134,6 +134,7 @@ func derefNamedOwner(v *types.Var, owner *types.Named) (bool, bool) {
 }
 
 func checkC17(c *Ctx, r *Report) {
+	defer checkGraphMutationSites(c, r, "C17.a")
 	defer checkContainerFields(c, r, "C17.a")
 	w := c.W
 	r.NotDecided = append(r.NotDecided, "the invariant over operation histories (that edges, deps and revDeps denote the same edge set after any sequence of operations): an inductive argument", "agreement of Children/Parents/Descendants with a set model for every graph")
